@@ -7,6 +7,7 @@ it must lie within one fine bin of the injected tone (chirp: of f_start + drift*
 Post-conditions on get_raw_params, get_pfb_waterfall and get_waterfall_from_raw.
 """
 import os
+import glob
 import numpy as np
 from .. import common, work_raw
 from ..ref import guppi
@@ -25,7 +26,7 @@ ASSUMPTIONS = ['fine bin j of coarse channel c (file order) maps to OBSFREQ + (c
 
 def required(tier):
     b = {'orient:asc': 20, 'orient:desc': 20, 'start_chan:0': 10, 'start_chan:>0': 30, 'kind:tone': 50, 'kind:chirp': 30,
-         'kind:reducers': 20, 'stem-re-recorded': 40, 'reducer:aligned-header': 8, 'reducer:key-begins-with-END': 4, 'chirp:neg': 8, 'chirp:pos': 8, 'array': 10, 'reducer:from_raw': 10, 'reducer:directio-off': 3, 'reducer:directio-on': 3, 'tone:mm-wave-band-sub-Hz-bins': 10}
+         'kind:reducers': 20, 'stem-re-recorded': 40, 'reducer:aligned-header': 8, 'reducer:key-begins-with-END': 4, 'chirp:neg': 8, 'chirp:pos': 8, 'array': 10, 'reducer:from_raw': 10, 'reducer:directio-off': 3, 'reducer:directio-on': 3, 'tone:mm-wave-band-sub-Hz-bins': 10, 'chirp:second-scan-from-the-same-source': 8, 're-recorded-through-from_data:start_chan>0': 8}
     return {'buckets': b, 'counters': {'tones_located': 60, 'chirp_rows_located': 60}, 'checks': 300, 'nontrivial': 60}
 
 
@@ -129,6 +130,10 @@ def run_case(c, R):
     f_tone = cfg['fch1'] + c['cabs'] * chan_bw + (c['j'] + c['frac']) * sgn * fine
     total_t = cfg['nblocks'] * sz['spb'] * tbin
     # drift_bins is the travel in fine bins of the recorded channel; sky-frequency drift has the band's sign
+    # a third of the chirp cases are followed through a SECOND scan recorded from the same source: the travel is spread over both
+    two_scans = c['kind'] == 'chirp' and c['_idx'] % 3 == 1
+    if two_scans:
+        total_t = total_t * 2.0 + 2 * cfg['M'] * tbin
     drift = (sgn * c['drift_bins'] * fine / total_t) * (1 if c['kind'] == 'chirp' else 0)
     rvb, src = work_raw.build(stg, cfg)
     ants = [src] if cfg['nants'] == 1 else src.antennas
@@ -157,11 +162,60 @@ def run_case(c, R):
             for k_ in range((-ncfg) % 32):
                 hd[f'FILL{k_:03d}'] = k_
             R.bucket('reducer:aligned-header')
+    t0 = float(src.t_start)
     rec = work_raw.do_record(stg, cfg, stem, rvb=rvb, src=src, header_dict=hd)
     try:
         _judge(stg, raw_utils, c, cfg, L, rec, stem, f_tone, drift, fine, tbin, chan_bw, sz, R)
+        if c['kind'] == 'tone' and c['_idx'] % 4 == 1:
+            _rerecord(stg, raw_utils, c, cfg, rec, stem, R)
     finally:
         for f in rec['files']:
+            if os.path.exists(f):
+                os.remove(f)
+    if two_scans:
+        # the chirp is a function of the source's time: in the next scan it is where f_start + drift_rate * t puts it, t running on
+        R.bucket('chirp:second-scan-from-the-same-source' + (':array' if cfg['nants'] > 1 else ''))
+        t1 = float(src.t_start)
+        rec2 = work_raw.do_record(stg, cfg, stem + '_scan2', rvb=rvb, src=src, header_dict={'DIRECTIO': c['directio']})
+        try:
+            _judge(stg, raw_utils, dict(c, second_scan=True), cfg, L, rec2, stem + '_scan2', f_tone + drift * (t1 - t0), drift, fine, tbin, chan_bw,
+                   sz, R)
+        finally:
+            for f in rec2['files']:
+                if os.path.exists(f):
+                    os.remove(f)
+
+
+def _rerecord(stg, raw_utils, c, cfg, rec, stem, R):
+    """The recording read back (same first-channel index) and recorded again through from_data: the new file's header describes the
+    same band, so a tone is located by it exactly as by the input's header."""
+    v = stg.voltage
+    R.bucket('re-recorded-through-from_data' + (':start_chan>0' if cfg['start_chan'] > 0 else ''))
+    with common.quiet():
+        rp = raw_utils.get_raw_params(stem, start_chan=cfg['start_chan'])
+    kw = dict(sample_rate=cfg['sample_rate'], fch1=rp['fch1'], ascending=rp['ascending'], num_pols=rp['num_pols'], seed=3)
+    src2 = v.Antenna(**kw) if cfg['nants'] == 1 else v.MultiAntennaArray(num_antennas=cfg['nants'], delays=[0] * cfg['nants'], **kw)
+    out = stem + '_again'
+    with common.quiet():
+        rvb2 = v.RawVoltageBackend.from_data(stem, src2, digitizer=v.RealQuantizer(),
+                                             filterbank=v.PolyphaseFilterbank(num_taps=cfg['M'], num_branches=cfg['P']),
+                                             start_chan=cfg['start_chan'], num_subblocks=1)
+        rvb2.record(out, header_dict={}, digitize=False, load_template=False, verbose=False)
+    files = sorted(glob.glob(out + '.????.raw'))
+    try:
+        hin = {k: guppi.parse_value(x) for k, x in work_raw.read_blocks(rec['files'][:1])[0]['header'].items()}
+        hout = {k: guppi.parse_value(x) for k, x in work_raw.read_blocks(files[:1])[0]['header'].items()}
+        for k in ('OBSFREQ', 'OBSBW', 'CHAN_BW', 'TBIN', 'OBSNCHAN'):
+            ok = k in hout and isinstance(hout[k], (int, float)) and abs(float(hout[k]) - float(hin[k])) <= 1e-12 * abs(float(hin[k]))
+            R.check(ok, 're-recorded-header-describes-another-band:' + k, got=hout.get(k), want=hin[k], start_chan=cfg['start_chan'])
+        with common.quiet():
+            rp2 = raw_utils.get_raw_params(out, start_chan=cfg['start_chan'])
+        R.check(abs(rp2['fch1'] - cfg['fch1']) <= 1e-3 and rp2['ascending'] == cfg['asc'], 're-recorded-get_raw_params-fch1', got=rp2['fch1'],
+                want=cfg['fch1'], start_chan=cfg['start_chan'])
+    except guppi.GuppiError as e:
+        R.violate('unparseable-recording:' + e.key + ':re-recorded', msg=str(e))
+    finally:
+        for f in files:
             if os.path.exists(f):
                 os.remove(f)
 
@@ -226,7 +280,7 @@ def _judge(stg, raw_utils, c, cfg, L, rec, stem, f_tone, drift, fine, tbin, chan
                 worst = max(worst, abs(err) / slack)
                 located += 1
                 if abs(err) > slack:
-                    R.violate('chirp-not-following-f_start+drift*t' + (':descending' if not cfg['asc'] else ''), row=r, err_bins=err,
+                    R.violate('chirp-not-following-f_start+drift*t' + (':descending' if not cfg['asc'] else '') + (':second-scan' if c.get('second_scan') else ''), row=r, err_bins=err,
                               slack=slack, drift=drift, f_est=f_est, want=want)
                     break
             R.count('chirp_rows_located', located)
